@@ -271,7 +271,9 @@ fn repeat_commit<X: Sx>(ctx: &Ctx, idx: u64, m: usize, n: usize, threads: usize)
                 for k in 0..n {
                     let o = format!("{}/t{}/k{}", origin, t, k);
                     ctx.distinct(&o);
-                    let g = ctx.call("commit", origin, None, || Com::<X>::commit(Some(cm)));
+                    // with no committed messages the argument may be absent or the empty list: both are exercised
+                    let arg: Option<&[Vec<u8>]> = if m == 0 && k % 2 == 1 { None } else { Some(cm) };
+                    let g = ctx.call("commit", origin, None, || Com::<X>::commit(arg));
                     let Some((com, bf)) = g.value else {
                         ctx.inconclusive("C07: commit failed (C05's business)");
                         continue;
@@ -282,6 +284,9 @@ fn repeat_commit<X: Sx>(ctx: &Ctx, idx: u64, m: usize, n: usize, threads: usize)
                     let ds = draw_scalars(ctx, &g.draws, &o);
                     let b = com.to_bytes();
                     let blind = rf::octets_to_scalar(&bf.to_bytes()).unwrap();
+                    if blind == Scalar::ZERO || b[..48] == rf::g1_c(&bls12_381_plus::G1Projective::IDENTITY)[..] {
+                        ctx.violation("C07:zero-blind-or-identity-commitment", json!({"origin":o,"argument":if arg.is_none() {"None"} else {"Some"}}));
+                    }
                     let explained = ds.len() == m + 2;
                     if !explained {
                         note_scalar(ctx, &blind, &format!("blind#{}", o));
